@@ -4,6 +4,12 @@ NOTES = ("All checks: bin/check <ID> --tier quick|thorough. Exit 0 held / 1 VIOL
          "Specification in spec/, harness in harness/, known findings in known_findings.jsonl; see DESIGN.md.")
 NOT_APPLICABLE = {}
 CHECKS = {
+    "C18": {
+        "level": "model_checking",
+        "technique": "One AST, two TLA+ pretty-printers (Render: SCSS and indented) over TLC-generated programs (MC_Eval), variation descriptors enumerated by TLC (MC_Variation: newline styles incl. mixed, blank/whitespace-only/comment line padding, trailing white space, BOM/@charset prefix, '-'/'_' name swaps) applied by the harness; all variants compiled by grass; TLC trace machine Trace_Agree requires identical CSS and logger messages (or unanimous failure), rejection of Sass-only constructs in CSS mode and CSS/SCSS agreement on Sass-free flat CSS",
+        "text": "For each generated program: the SCSS rendering, the indented rendering and k seeded variation descriptors per syntax (out of 150) must all compile to the byte-identical CSS and the same @debug/@warn messages, or all fail; parsed as plain CSS the SCSS rendering must be rejected when the specification says it uses a Sass-only construct and must mean the same when it is Sass-free and flat.",
+        "note": "Programs are those of the C03 generator (no selectors beyond class names, no at-rules other than the control directives); one combination is left open: trailing white space after '@content(args)' in the indented syntax.",
+    },
     "C06": {
         "level": "model_checking",
         "technique": "TLA+ CssTokens.Canon / StyleEquivalent (formatting-only equivalence of token streams) judging, in TLC (Trace_Style), one event per input compiled in both styles: outcome, error message, logger deliveries and canonical token streams; inputs from TLC generators (MC_Style: 24 values x 27 places where evaluation turns a value into text; MC_Sheet; MC_Eval; MC_Nesting) and the golden corpus",
